@@ -14,12 +14,15 @@
      * calculate_filter_parameters (struct fields as parameters) computes the reference's per-macroblock filter level,
        interior limit and key-frame hev threshold (Spec.VP8.filter_strength) for every header state whose segment base level
        stays within 0..63 before the deltas are added.
+     * the per-segment block of read_quantization_indices (places read as parameters, places written as results) computes the
+       reference's six dequantisation factors (Spec.VP8.segment_quant: table lookups at clamped indices, y2dc * 2,
+       y2ac * 155 / 100 with floor 8, uvdc capped at 132) for every header the bitstream can express, without overflow.
    NOT proved (the two structural links of DESIGN.md section 6 C02: interleaved parsing with contexts = AST parse, workspace /
    border bookkeeping = frame-addressed reconstruction and per-macroblock filter traversal): decided on every run by the
    whole-frame correspondence implementation = Spec.VP8.decode on generated key frames (harness c02), and on libwebp. *)
 From Coq Require Import ZArith List Lia.
 From WebP Require Import Gen.Tables Gen.Kernels Lib.ZBits Lib.Arr Spec.VP8Tables Spec.VP8 Proofs.VP8_tables Proofs.VP8_kernels
-  Proofs.VP8_arraykernels_aux Proofs.VP8_arraykernels Proofs.VP8_filter_params.
+  Proofs.VP8_arraykernels_aux Proofs.VP8_arraykernels Proofs.VP8_filter_params Proofs.VP8_quant.
 Import ListNotations.
 Open Scope Z_scope.
 
@@ -115,3 +118,16 @@ Theorem filter_parameters_refine : forall (h : header) (seg : Z) (i4 : bool),
   let level := nth 0 out 0 in let il := nth 1 out 0 in let hev := nth 2 out 0 in
   filter_strength h seg i4 = if 0 <? level then mkF (2 * level + il) il hev else mkF 0 0 0.
 Proof. exact filter_params_refine. Qed.
+
+(* dequantisation factors of a segment: every header the bitstream can express (7-bit base index, 4-bit signed deltas,
+   7-bit signed segment values, segment map absolute or delta) *)
+Theorem dequantisation_refine : forall (h : header) (seg : Z),
+  0 <= h_base_q h <= 127 -> -127 <= nthZ (h_seg_quant h) seg 0 <= 127 ->
+  -15 <= h_dqy1_dc h <= 15 -> -15 <= h_dqy2_dc h <= 15 -> -15 <= h_dqy2_ac h <= 15 -> -15 <= h_dquv_dc h <= 15 -> -15 <= h_dquv_ac h <= 15 ->
+  segment_quantizers (h_base_q h) (h_dqy1_dc h) (h_dqy2_dc h) (h_dqy2_ac h) (h_dquv_dc h) (h_dquv_ac h)
+                     (h_use_segment h) (negb (h_absolute h)) (nthZ (h_seg_quant h) seg 0)
+  = [q_y1dc (segment_quant h seg); q_y1ac (segment_quant h seg); q_y2dc (segment_quant h seg);
+     q_y2ac (segment_quant h seg); q_uvdc (segment_quant h seg); q_uvac (segment_quant h seg)]
+  /\ segment_quantizers_ok (h_base_q h) (h_dqy1_dc h) (h_dqy2_dc h) (h_dqy2_ac h) (h_dquv_dc h) (h_dquv_ac h)
+                     (h_use_segment h) (negb (h_absolute h)) (nthZ (h_seg_quant h) seg 0) = true.
+Proof. exact segment_quant_refine. Qed.
